@@ -1,6 +1,7 @@
 import PercevalModel.SimProto
 import PercevalModel.Model.C04
 import PercevalModel.Model.C04Trim
+import PercevalModel.Model.C04Session
 
 open Lean PM PM.Proto PM.Fock PM.Dist PM.SimSpec PM.SimProto PM.C04
 
@@ -60,6 +61,62 @@ def trimGap (eng : Fock → D) (P : PM.C04.Prec) (c : Cfg) (members : List Membe
   let g2 := ((keptθ P c members).map fun mb =>
     tensorGap (θ / (10 * mb.w)) (mb.groups.map (groupDist eng c mb.n))).foldl min 1
   min g1 g2
+
+def heraldsOfJson (m : ℕ) (j : Json) : Except String (List (ℕ × ℕ)) := do
+  let hs ← (← j.getArr?).toList.mapM fun h => do
+    match (← natList h) with
+    | [a, b] => pure (a, b)
+    | _ => throw "bad herald"
+  if hs.any (fun p => p.1 ≥ m) then throw "herald outside the circuit"
+  if !(hs.map (·.1)).Nodup then throw "duplicated herald mode"
+  return hs
+
+def detsOfJson (m : ℕ) (j : Json) (k : String) : Except String (List Det) := do
+  let ds ← match j.getObjVal? k with
+    | .ok (.arr a) => a.toList.mapM detOfJson
+    | .ok .null => pure []
+    | .ok _ => throw "bad dets"
+    | .error _ => pure []
+  if !ds.isEmpty && ds.length ≠ m then throw "bad number of detectors"
+  return ds
+
+def optOf {α : Type} (j : Json) (k : String) (f : Json → Except String α) : Except String (Option α) :=
+  match j.getObjVal? k with
+  | .ok .null => pure none
+  | .ok v => do return some (← f v)
+  | .error _ => pure none
+
+def membersOf (m : ℕ) (j : Json) : Except String (List PM.C04.Member) := do
+  let members ← (← arrOf j "members").toList.mapM memberOfJson
+  if members.any (fun mb => mb.groups.any (·.length ≠ m)) then throw "bad group size"
+  if members.any (fun mb => mb.groups.isEmpty) then throw "member without group"
+  return members
+
+def simOpOfJson (m : ℕ) (j : Json) : Except String SimOp := do
+  match (← strOf j "t") with
+  | "sel" => return .setSelection (← optOf j "filter" (·.getNat?)) (← optOf j "ps" psOfJson)
+               (← optOf j "heralds" (heraldsOfJson m))
+  | "heralds" => return .setHeralds (← heraldsOfJson m (← j.getObjVal? "heralds"))
+  | "clearHeralds" => return .clearHeralds
+  | "ps" => return .setPostselection (← psOfJson (← j.getObjVal? "ps"))
+  | "clearPs" => return .clearPostselection
+  | "filter" => return .setFilter (← natOf j "k")
+  | "keep" => return .keepHeralds (← boolOf j "b")
+  | "probs" => return .probsSvd (← detsOfJson m j "dets") (← membersOf m j)
+  | t => throw s!"unknown simulator operation {t}"
+
+def procOpOfJson (m : ℕ) (j : Json) : Except String ProcOp := do
+  match (← strOf j "t") with
+  | "herald" =>
+    let k ← natOf j "k"
+    if k ≥ m then throw "herald outside the circuit"
+    return .addHerald k (← natOf j "v")
+  | "dets" => return .setDetectors (← detsOfJson m j "dets")
+  | "ps" => return .setPostselection (← psOfJson (← j.getObjVal? "ps"))
+  | "clearPs" => return .clearPostselection
+  | "filter" => return .setFilter (← natOf j "k")
+  | "probs" => return .probs (← membersOf m j) (← optOf j "autoN" (·.getNat?))
+  | t => throw s!"unknown processor operation {t}"
 
 def outToJson (o : Out) : Json :=
   Json.mkObj [("results", distToJson o.results), ("phys", ratToJson o.phys), ("logical", ratToJson o.logical)]
@@ -126,6 +183,46 @@ def handle (j : Json) : Json :=
         ("prunedEntries", toJson (((keptθ P c members).map fun (mb : PM.C04.Member) =>
             (memberDist eng c mb).length - (memberDistθ eng c (pThreshold P c members) mb).length).sum)),
         ("gap", ratToJson (trimGap eng P c members))]
+    | "session" =>
+      -- a long-lived Simulator / Processor: every query is answered by the state machine (the walk over the sorted
+      -- keys under the mask that is on the backend), and — next to it — by the stateless model for the selection in
+      -- force (theorems simulator_selection_history_independent / processor_selection_history_independent)
+      let ⟨m, U⟩ ← matOfJson j
+      let kind ← strOf j "kind"
+      let opsJ := (← arrOf j "ops").toList
+      let allMembers ← opsJ.mapM fun o => do
+        if (← strOf o "t") == "probs" then membersOf m o else pure []
+      let tab := engTable U allMembers.flatten
+      let eng : Fock → D := fun s => (tab.lookup s).getD []
+      let specOf (c : Cfg) (ds : List Det) (members : List PM.C04.Member) (o : Out) : Json :=
+        let fullD := detectedFull eng m ds members
+        Json.mkObj [("machine", outToJson o), ("stateless", outToJson (probsSvdDet eng c ds members)),
+          ("retained", ratToJson (mass (retained (cond c) fullD))), ("specPhys", ratToJson (physPerf (cond c) fullD)),
+          ("minFilter", toJson (minFilter c))]
+      if kind == "sim" then
+        let ops ← opsJ.mapM (simOpOfJson m)
+        let (_, outs) := ops.foldl (fun (acc : SimSt × List Json) op =>
+          let r := simStep eng m acc.1 op
+          let jo := match op, r.2 with
+            | .probsSvd ds members, .res o => specOf (acc.1.cfg m) ds members o
+            | _, _ => Json.null
+          (r.1, acc.2 ++ [jo])) (SimSt.init, [])
+        return Json.mkObj [("outs", Json.arr outs.toArray)]
+      else if kind == "proc" then
+        let notify ← match j.getObjVal? "notify" with
+          | .ok (.bool b) => pure b
+          | _ => pure true
+        let ops ← opsJ.mapM (procOpOfJson m)
+        let (_, outs) := ops.foldl (fun (acc : ProcSt × List Json) op =>
+          let r := procStep notify eng m acc.1 op
+          let jo := match op, r.2 with
+            | .probs members autoN, .res o =>
+              specOf (acc.1.cfg m ((acc.1.filter.or autoN).getD 0)) acc.1.dets members o
+            | _, .exc e => Json.mkObj [("exc", e)]
+            | _, _ => Json.null
+          (r.1, acc.2 ++ [jo])) (ProcSt.init, [])
+        return Json.mkObj [("outs", Json.arr outs.toArray)]
+      else throw "bad session kind"
     | "interleave" =>
       let m ← natOf j "m"
       let hs ← (← arrOf j "heralds").toList.mapM fun h => do
